@@ -87,6 +87,7 @@ class T2TModel(object):
         self.naks = 0
         self.unknown = 0
         self.power_cycles = 0
+        self.sector_resets = 0       # power cycles that happened while a sector other than 0 was selected
         self.power_cycle()
 
     # ------------------------------------------------------------------ life cycle
@@ -100,6 +101,8 @@ class T2TModel(object):
 
     def power_cycle(self):
         self.power_cycles += 1
+        if getattr(self, "sector", 0) != 0:
+            self.sector_resets += 1
         self.idle = False
         self.sector = 0
         self.sector_pending = False
